@@ -367,7 +367,7 @@ outer:
 			for k := 0; k < plan.PerTag; k++ {
 				r := prog.NewRand(seed, hashStr(e.Name), hashStr(tag), uint64(k))
 				id := rt.NextID()
-				sc := prog.GenScenario(e.Prog, r, id, tag)
+				sc := prog.GenScenario(e.Prog, r, id, tag, k)
 				if pf != nil {
 					fmt.Fprintf(pf, "BEGIN %s %s %d\n", e.Name, tag, k)
 				}
@@ -504,7 +504,7 @@ func account(b *Batch, distinct map[string]map[uint64]struct{}, e *rt.Entry, sc 
 		"C09": sc.CancelBefore || sc.CancelOnFn != 0,
 		"C10": p.Par != nil && !faulty && (elems >= 2 || nfn >= 2),
 		"C11": p.HasFeature("predicate") || p.HasFeature("fallback"),
-		"C15": p.Wrap && p.NumSites >= 3,
+		"C15": (p.Wrap || p.Bare) && p.NumSites >= 3,
 		"C18": len(x.Emits()) > 0,
 	}
 	for prop, ok := range nt {
